@@ -29,8 +29,9 @@ VARIABLES msh,        \* the mesh (a variant of a catalogue mesh), constant alon
           mask,     \* the facet mask: a set of facets (vertex sets)
           comp,     \* the compiled list: a set of (cell, local facet) pairs
           cleared,  \* clear() occurred in the history
+          pre,      \* history abstraction: what was masked / compiled when clear() was called (distinguishes the witnesses)
           hist      \* the history: sequence of operations
-vars == <<msh, vk, geo, mask, comp, cleared, hist>>
+vars == <<msh, vk, geo, mask, comp, cleared, pre, hist>>
 
 DMax == 4          \* largest total degree of an integrated monomial
 ExpsUpTo(dim, d) == {e \in [1..dim -> 0..d] : TotDeg(e) <= d}
@@ -40,8 +41,9 @@ MinC(m, a) == CHOOSE x \in {m.X[v][a] : v \in 1..NV(m)} : \A v \in 1..NV(m) : x 
 MaxC(m, a) == CHOOSE x \in {m.X[v][a] : v \in 1..NV(m)} : \A v \in 1..NV(m) : x >= m.X[v][a]
 GeoOf(m) ==
   LET CF == CellFacets(m)
-      FS == {FacetOf(m, cl) : cl \in CF}
-      adj == [F \in FS |-> {cl \in CF : FacetOf(m, cl) = F}]
+      fo == TLCEval([cl \in CF |-> FacetOf(m, cl)])
+      FS == {fo[cl] : cl \in CF}
+      adj == TLCEval([F \in FS |-> {cl \in CF : fo[cl] = F}])
       bnd == {F \in FS : Cardinality(adj[F]) = 1}
       inn == {F \in FS : Cardinality(adj[F]) = 2}
       side(a, x) == {F \in bnd : \A v \in F : Pt(m, v)[a] = x}
@@ -50,7 +52,7 @@ GeoOf(m) ==
       far == side(1, MaxC(m, 1))
       innsup == {F \in inn : \A cl \in adj[F] : FKind(m, cl) # "other"}
         FI == FInfoTable(m)
-  IN [cf |-> CF, fi |-> FI, ir |-> IRefTable(FI, CF, ExpsUpTo(m.dim, DMax)), fs |-> FS, adj |-> adj, bnd |-> bnd, inn |-> inn, p1 |-> p1, p2 |-> p2,
+  IN [cf |-> CF, fo |-> fo, fi |-> FI, ir |-> IRefTable(FI, CF, ExpsUpTo(m.dim, DMax)), fs |-> FS, adj |-> adj, bnd |-> bnd, inn |-> inn, p1 |-> p1, p2 |-> p2,
       f1 |-> IF far = {} THEN {} ELSE {CHOOSE F \in far : TRUE},
       f2 |-> IF innsup = {} THEN {} ELSE {CHOOSE F \in innsup : TRUE}]
 
@@ -64,11 +66,12 @@ Init ==
        /\ Catalogue[k].t <= Tier /\ Catalogue[k].m.name \in MeshSel
        /\ msh = Variant(Catalogue[k].m, v) /\ vk = v
   /\ geo = GeoOf(msh)
-  /\ mask = {} /\ comp = {} /\ cleared = FALSE /\ hist = << >>
+  /\ mask = {} /\ comp = {} /\ cleared = FALSE /\ pre = << {}, {} >> /\ hist = << >>
 
 Step(op, m2, c2, cl2) ==
   /\ Len(hist) < (IF vk = 0 THEN MaxOps ELSE 2)      \* the long histories on the mesh as generated, the short ones on every variant
   /\ mask' = m2 /\ comp' = c2 /\ cleared' = cl2 /\ hist' = Append(hist, op)
+  /\ pre' = IF op.op = "clear" THEN <<mask, comp>> ELSE pre
   /\ UNCHANGED <<msh, vk, geo>>
 
 AddPart1 == geo.p1 # {} /\ Step(PartOp("p1", geo.p1), mask \cup geo.p1, comp, cleared)
@@ -76,29 +79,29 @@ AddPart2 == geo.p2 # geo.p1 /\ Step(PartOp("p2", geo.p2), mask \cup geo.p2, comp
 AddFacet1 == geo.f1 # {} /\ Step(FacetOp(CHOOSE F \in geo.f1 : TRUE), mask \cup geo.f1, comp, cleared)
 AddFacet2 == geo.f2 # {} /\ Step(FacetOp(CHOOSE F \in geo.f2 : TRUE), mask \cup geo.f2, comp, cleared)
 \* compile(): every masked facet, once per adjacent cell
-Compile == Step([op |-> "compile"], mask, {cl \in geo.cf : FacetOf(msh, cl) \in mask}, cleared)
+Compile == Step([op |-> "compile"], mask, {cl \in geo.cf : geo.fo[cl] \in mask}, cleared)
 \* compile_all_facets(inner, outer): independent of the mask, which it leaves alone
 CompileAll(i, o) ==
   Step([op |-> "all", i |-> i, o |-> o], mask,
-       {cl \in geo.cf : LET F == FacetOf(msh, cl) IN (o /\ F \in geo.bnd) \/ (i /\ F \in geo.inn)}, cleared)
+       {cl \in geo.cf : LET F == geo.fo[cl] IN (o /\ F \in geo.bnd) \/ (i /\ F \in geo.inn)}, cleared)
 \* clear(): as after construction
 Clear == ~cleared /\ Step([op |-> "clear"], {}, {}, TRUE)
 
 Next == \/ AddPart1 \/ AddPart2 \/ AddFacet1 \/ AddFacet2 \/ Compile \/ Clear
         \/ \E i, o \in BOOLEAN : CompileAll(i, o)
 Spec == Init /\ [][Next]_vars
-View == <<msh.name, vk, mask, comp, cleared>>
+View == <<msh.name, vk, mask, comp, cleared, pre>>
 
 \* ---- laws of the specification itself (checked by TLC on every state) ---------------------------------------------
 \* (laws of the mesh alone: evaluated once per mesh, in the initial state)
 MeshLaws == hist = << >> => (MeshValid(msh) /\ MeshConforming(msh) /\ ClassOK(msh))
 \* "every selected facet exactly once": the compiled list is a set of (cell, facet) pairs of the mesh, complete for its facets
 CompLaw == /\ comp \subseteq geo.cf
-           /\ \A cl \in comp : geo.adj[FacetOf(msh, cl)] \subseteq comp
+           /\ \A cl \in comp : geo.adj[geo.fo[cl]] \subseteq comp
 \* the boundary of the domain is closed: the outer normals of all boundary facets sum to zero (divergence theorem for 1), and the
 \* flux of x_k n_k is the volume:  sum_k int x_k n_k = dim * |Omega|
 NormalLaw ==
-  LET B == {cl \in geo.cf : FacetOf(msh, cl) \in geo.bnd} IN
+  LET B == {cl \in geo.cf : geo.fo[cl] \in geo.bnd} IN
   (hist = << >> /\ SelSupported(geo.fi, B) /\ msh.class = "box") =>
     /\ \A k \in 1..msh.dim : FluxVal(msh, geo.fi, geo.ir, B, ZeroE(msh.dim), k).t[1][1] = 0
     /\ \A k \in 1..msh.dim : LET v == FluxVal(msh, geo.fi, geo.ir, B, [a \in 1..msh.dim |-> IF a = k THEN 1 ELSE 0], k) IN v.t[1][1] = v.d
@@ -156,7 +159,7 @@ FullCase(T, R, sl, sup, tab, ftab) ==
                ELSE [v |-> << >>, p |-> << >>]]
 
 \* expected compiled list: <<sorted facet vertices, cell (0-based)>>
-SelSeq == LET S == SetSeq(comp) IN [q \in 1..Len(S) |-> [f |-> FacetSeq(FacetOf(msh, S[q])), c |-> S[q][1] - 1]]
+SelSeq == LET S == SetSeq(comp) IN [q \in 1..Len(S) |-> [f |-> FacetSeq(geo.fo[S[q]]), c |-> S[q][1] - 1]]
 MeshJson == [name |-> msh.name, shape |-> msh.shape, dim |-> msh.dim, class |-> msh.class, cs |-> msh.cs, X |-> msh.X, cells |-> msh.cells,
              route |-> IF vk % 2 = 0 THEN "deduct" ELSE "factory"]
 LastOp == IF hist = << >> THEN "none" ELSE hist[Len(hist)].op
